@@ -313,7 +313,7 @@ def run_history(hist, acc):
 
 # ---- part 2: two concurrent iterators --------------------------------------------------------------
 
-SCEN = ["flagged_reuse", "static", "flagged_two", "iter_vs_isrun"]
+SCEN = ["flagged_reuse", "static", "flagged_two", "iter_vs_isrun", "held_iterator"]
 
 
 def run_schedule(scn, preempt, first):
@@ -341,14 +341,27 @@ def run_schedule(scn, preempt, first):
             assert [x for x in objs if x.pid == 9][0].is_running() is False
             stale = [x for x in objs if x.pid == 8][0]
         sch = S.Sched(env["codes"], preempt=preempt, first=first)
+        import sys as _sys
+        undo = S.coop_module_locks([m for n, m in list(_sys.modules.items()) if m is not None and
+                                    (n == ps.__name__ or n.startswith(ps.__name__ + "."))], lambda: sch)
 
         def prog(i):
             def f():
                 if scn == "iter_vs_isrun" and i == 1:
                     return ("isrun", stale.is_running())
+                if scn == "held_iterator" and i == 0:
+                    # a half consumed iterator is kept while another thread makes a complete pass, and is finished only after
+                    # that thread has ended (main thread: `it = process_iter(); next(it); worker.start(); worker.join(); ...`)
+                    it = ps.process_iter()
+                    head = [next(it).pid]
+                    sch.wait_done(1)
+                    return head + [p.pid for p in it]
                 return [p.pid for p in ps.process_iter()]
             return f
-        sch.run([prog(0), prog(1)])
+        try:
+            sch.run([prog(0), prog(1)])
+        finally:
+            undo()
         listed = sorted(w.t.procs)
         if scn == "iter_vs_isrun":
             # quiescent epilogue: the entry found recycled must be replaced by a fresh object
@@ -803,6 +816,68 @@ def run_live(shard, acc):
     acc.case(dict(kind="live"), True, viols)
 
 
+def run_handover(acc):
+    """An iterator started in one thread is finished in another (a worker pool that hands generators around), and a third
+    thread makes a complete pass afterwards. Real threads, strictly one after the other - no race is involved, only the question
+    which thread runs which part."""
+    import threading
+    env = setup()
+    ps, H = env["ps"], env["H"]
+    for variant in ("started_elsewhere", "created_elsewhere", "finished_elsewhere_after_a_full_pass"):
+        case = dict(kind="handover", variant=variant)
+        viols = []
+        w = H.World(ps)
+        with w:
+            for p in (7, 8, 9):
+                w.apply(("spawn", p, False))
+            listed = sorted(w.t.procs)
+            box = {}
+
+            def first_part():
+                try:
+                    box["it"] = ps.process_iter()
+                    if variant != "created_elsewhere":
+                        box["head"] = [next(box["it"]).pid]
+                except BaseException as e:  # noqa: BLE001
+                    box["exc"] = e
+            t = threading.Thread(target=first_part)
+            t.start()
+            t.join()
+            acc.count("iterators_handed_to_another_thread")
+            try:
+                if "exc" in box:
+                    raise box["exc"]
+                if variant == "finished_elsewhere_after_a_full_pass":
+                    list(ps.process_iter())
+                seq = box.get("head", []) + [p.pid for p in box["it"]]
+                if seq != listed:
+                    viols.append(("handed_over_iterator_wrong", f"{variant}: yielded {seq}, listed {listed}"))
+            except Exception as e:  # noqa: BLE001
+                viols.append((f"handed_over_iterator_exception:{type(e).__name__}", f"{variant}: {e!r}"))
+            if not viols:
+                # a later complete pass from yet another thread (bounded wait: a thread that never comes back is reported as
+                # such, and nothing else is attempted in this worker afterwards)
+                def full_pass():
+                    try:
+                        box["later"] = [p.pid for p in ps.process_iter()]
+                    except BaseException as e:  # noqa: BLE001
+                        box["later_exc"] = e
+                t2 = threading.Thread(target=full_pass, daemon=True)
+                t2.start()
+                t2.join(120)
+                if t2.is_alive():
+                    acc.inconclusive = f"handover {variant}: a complete pass from another thread did not return within 120 s"
+                    acc.case(case, True, viols)
+                    return
+                if "later_exc" in box:
+                    viols.append((f"pass_after_handover_exception:{type(box['later_exc']).__name__}", f"{variant}: {box['later_exc']!r}"))
+                elif box.get("later") != listed:
+                    viols.append(("pass_after_handover_wrong", f"{variant}: yielded {box.get('later')}, listed {listed}"))
+        acc.case(case, True, viols)
+        if viols:
+            return      # whatever went wrong may have left a lock behind: nothing else is attempted in this worker
+
+
 def plan(tier, seed):
     shards = []
     n = 32000 if tier == "quick" else 600000
@@ -817,6 +892,7 @@ def plan(tier, seed):
     for part in range(4 if tier == "quick" else 16):
         shards.append(dict(kind="threads", seed=seed, part=part, count=5 if tier == "quick" else 60))
     shards.append(dict(kind="live", timeout=1200))
+    shards.append(dict(kind="handover"))
     return shards
 
 
@@ -868,6 +944,8 @@ def run_shard(shard):
             run_threads_case(dict(seed=shard["seed"], i=shard["part"] * 1000 + i, threads=2 + i % 2, ops=150, pool=8 + 4 * (i % 3)), acc)
     elif k == "live":
         run_live(shard, acc)
+    elif k == "handover":
+        run_handover(acc)
     elif k == "sched_exh":
         sch, _ = run_schedule(shard["scn"], (), 0)
         total = sch.step
@@ -894,6 +972,8 @@ def run_shard(shard):
                 run_threads_case({k_: v for k_, v in case.items() if k_ != "kind"}, acc)
             elif case.get("kind") == "live":
                 run_live({}, acc)
+            elif case.get("kind") == "handover":
+                run_handover(acc)
             elif case.get("kind") == "probe_race":
                 run_probe_race(acc)
             elif case.get("kind") == "flag_then_clear":
